@@ -15,11 +15,12 @@ SPEC = {
              "bridge waiting, bridge served, waiting on another node, route to this node without bridge) = 875 cells, all on every run; late matrix: identity (6, incl. the other mapping's target client) x credential (7) x tunnel that "
              "appears while the request polls (local bridge opened by the rightful listen client / route to this node / route to "
              "another node, for mapping M / F) = 252 cells; transport matrix: identity asserted by the transport (8) x credential (7) x tunnel state (4) = 224; config matrix: no "
-             "routing table / other node unreachable / route past its expiry x identity (5) x credential (7) = 175; plus random worlds (1-3 "
+             "routing table / other node unreachable / route past its expiry x identity (5) x credential (7) = 175; zero-listen matrix: a mapping the server itself listens on (listen client 0) x identity (8, incl. refused "
+             "handshake and id-less vouching transport) x credential (5) x tunnel state (4) = 160; plus random worlds (1-3 "
              "mappings, shared and empty secrets, clients on both sides, malformed and empty payloads, mostly entitled requests with "
              "at most one thing broken); one end-to-end case (mapping created by the real PortMappingService, listen client and "
              "target client both admitted, bytes flow). Observed: the ack on the "
-             "requesting connection, which connection the bridge holds as source/target, whether the other node received a "
+             "requesting connection and the NUMBER of acknowledgement packets written to it, which connection the bridge holds as source/target, whether the other node received a "
              "TargetReady frame, whether bytes written by the other end became readable on the requester. "
              "non-trivial = every case (each is a full request); distinct = distinct case strings"),
     "trusted_base": [
